@@ -7,8 +7,8 @@
     Correspondence with the source (kept side condition by side condition):
       [eval]             eval_expr_with_subst (both copies), constructors and literals only
       [subterms]         add_subterm_reflexive_equalities
-      [process_actions]  process_actions (Let / Union / Expr; Set of a constructor-like table is an
-                         Expr of the extended application; Panic / Change add nothing)
+      [process_actions]  process_actions (Let / Union / Expr; Panic / Change (subsume, delete) add
+                         nothing = [ANop]; Set on a custom function is outside the fragment)
       [ctx_new]          ProofCheckContext::new (duplicate rule names, global bindings + equalities)
       [fact_matches]     check_fact_matches_proposition (Eq and plain facts)
       [check]            check_proof_with_context; the memo table [checked_proofs] only avoids
